@@ -1,7 +1,7 @@
 #!/bin/bash
 # usage: tools/runall.sh <tier> [seed]   — run every claimed check once, print one line each
 tier=${1:-quick}; export VERIF_SEED=${2:-1}
-cd /verif
+cd "$(dirname "$0")/.."
 for p in $(python3 -c "import json;print(' '.join(c['property_id'] for c in json.load(open('MANIFEST.json'))['checks']))"); do
   s=$(date +%s); out=$(./check $p $tier 2>&1 | grep -E "VIOLATION|held on|KNOWN|INTERNAL" | tr '\n' ' '); e=$(date +%s)
   echo "$p $tier seed=$VERIF_SEED $((e-s))s :: $out"
